@@ -533,6 +533,9 @@ pub fn generate(rng: &mut Rng, opts: &GenOpts, tag: &str) -> Value {
 
     // ---------------------------------------------------------------- costs
     let zero_costs = p == Profile::Degenerate && rng.chance(1, 4);
+    // one instance in eight has cost coefficients two orders of magnitude larger (tour costs
+    // beyond 2^31, schedule costs beyond 2^32)
+    let large_costs = !zero_costs && rng.chance(1, 8);
     let mut costs = Map::new();
     if zero_costs {
         costs.insert("staff".into(), json!(0));
@@ -540,13 +543,14 @@ pub fn generate(rng: &mut Rng, opts: &GenOpts, tag: &str) -> Value {
         costs.insert("deadHeadTrip".into(), json!(0));
         costs.insert("idle".into(), json!(0));
     } else {
-        costs.insert("staff".into(), json!(rng.range(0, 200)));
-        costs.insert("serviceTrip".into(), json!(rng.range(0, 100)));
+        let k = if large_costs { 100 } else { 1 };
+        costs.insert("staff".into(), json!(rng.range(0, 200) * k));
+        costs.insert("serviceTrip".into(), json!(rng.range(0, 100) * k));
         if rng.chance(2, 3) {
-            costs.insert("maintenance".into(), json!(rng.range(0, 50)));
+            costs.insert("maintenance".into(), json!(rng.range(0, 50) * k));
         }
-        costs.insert("deadHeadTrip".into(), json!(rng.range(0, 600)));
-        costs.insert("idle".into(), json!(rng.range(0, 50)));
+        costs.insert("deadHeadTrip".into(), json!(rng.range(0, 600) * k));
+        costs.insert("idle".into(), json!(rng.range(0, 50) * k));
     }
 
     let mut params = Map::new();
@@ -626,6 +630,77 @@ pub fn gap_network(rng: &mut Rng, tag: &str) -> Value {
     })
 }
 
+
+/// "shifted chain": K morning trips that all overlap and K evening trips that all overlap on a
+/// line of locations; morning trip i ends where evening trip i-1 starts, but evening trip i starts
+/// one (slow) hop further. K vehicles suffice (each drives the slow hop), K+1 vehicles avoid
+/// every dead-head trip: the fleet must stay minimal although one more vehicle would save K
+/// dead-head trips at once.
+pub fn chain_network(rng: &mut Rng, tag: &str) -> Value {
+    let k = rng.usize(3, 14);
+    let nloc = k + 3;
+    let hop = rng.range(3, 9) * 3600;
+    let far = 2 * hop;
+    let m_start = DAY0 + rng.range(1, 3) * 3600;
+    let m_dur = rng.range(1, 2) * 1800;
+    let shunt_min = *rng.pick(&[0i64, 120]);
+    let shunt_dh = *rng.pick(&[0i64, 300]);
+    // evening trips are reachable over one hop but not over the far connection: a fleet of K has
+    // to drive K slow hops, a fleet of K+1 none
+    let e_start = m_start + m_dur + hop + 2 * shunt_dh + rng.range(0, 2) * 1800;
+    let loc = |j: usize| format!("{}.L{}", tag, j);
+    let locations: Vec<Value> = (0..nloc).map(|j| json!({ "id": loc(j) })).collect();
+    let routes: Vec<Value> = (0..nloc - 1)
+        .map(|j| {
+            json!({"id": format!("{}.r{}", tag, j), "vehicleType": format!("{}.V", tag), "segments": [{
+                "id": format!("{}.r{}.s", tag, j), "order": 0, "origin": loc(j), "destination": loc(j + 1),
+                "distance": rng.range(10, 80) * 1000, "duration": m_dur}]})
+        })
+        .collect();
+    let mut departures = Vec::new();
+    for i in 1..=k {
+        departures.push(json!({"id": format!("{}.M{}", tag, i), "route": format!("{}.r{}", tag, i - 1), "segments": [{
+            "id": format!("{}.M{}.s", tag, i), "routeSegment": format!("{}.r{}.s", tag, i - 1),
+            "departure": iso(m_start), "passengers": rng.range(1, 90), "seated": rng.range(0, 40)}]}));
+        departures.push(json!({"id": format!("{}.E{}", tag, i), "route": format!("{}.r{}", tag, i + 1), "segments": [{
+            "id": format!("{}.E{}.s", tag, i), "routeSegment": format!("{}.r{}.s", tag, i + 1),
+            "departure": iso(e_start), "passengers": rng.range(1, 90), "seated": rng.range(0, 40)}]}));
+    }
+    let mut durations = Vec::new();
+    let mut distances = Vec::new();
+    for a in 0..nloc {
+        let mut dr = Vec::new();
+        let mut di = Vec::new();
+        for b in 0..nloc {
+            let hops = if a > b { a - b } else { b - a };
+            let d = match hops {
+                0 => 0,
+                1 => hop,
+                _ => far,
+            };
+            dr.push(d);
+            di.push(d / 3600 * 40000);
+        }
+        durations.push(dr);
+        distances.push(di);
+    }
+    let mut root = json!({
+        "vehicleTypes": [{"id": format!("{}.V", tag), "capacity": 100, "seats": 50}],
+        "locations": locations,
+        "routes": routes,
+        "departures": departures,
+        "deadHeadTrips": {"indices": (0..nloc).map(loc).collect::<Vec<_>>(), "durations": durations, "distances": distances},
+        "parameters": {
+            "shunting": {"minimalDuration": shunt_min, "deadHeadTripDuration": shunt_dh},
+            "costs": {"staff": rng.range(0, 100), "serviceTrip": rng.range(1, 60), "deadHeadTrip": rng.range(100, 600), "idle": rng.range(0, 30)}
+        }
+    });
+    if rng.chance(1, 2) {
+        root["depots"] = json!((0..nloc).map(|j| json!({"id": format!("{}.P{}", tag, j), "location": loc(j), "capacity": 50,
+            "allowedTypes": [{"vehicleType": format!("{}.V", tag), "capacity": 50}]})).collect::<Vec<_>>());
+    }
+    root
+}
 
 /// features of an instance that evidence files report
 pub fn features(inst: &refmodel::Inst) -> Vec<&'static str> {
